@@ -113,7 +113,24 @@ func (w *world) use(h *keyset.Handle, g *gen, depth int) (usable []string) {
 		o.Count("primitive-ok-by-type/" + name + "/" + pt)
 	}
 	created := func(name string) { o.Count("primitive-created/" + name) }
-	opfail := func(name string, err error) { o.Count("primitive-op-failed/" + name) }
+	opfail := func(name string, err error) {
+		o.Count("primitive-op-failed/" + name)
+		ks := "-"
+		if len(g.kinds) > 0 {
+			ks = kindClass(g.kinds[len(g.kinds)-1])
+			if strings.HasPrefix(ks, "ctor") {
+				ks = "ctor"
+			}
+		}
+		o.Count("primitive-op-failed-by/" + name + "/" + pt + "/" + ks)
+		// Key material of a wrong length that is accepted AND gives a primitive must give one that
+		// works: a primitive whose every operation fails on well-formed input is not
+		// self-consistent. (Not a rule for the other mutations: e.g. an all-zero X25519 public key is
+		// accepted by design and fails at Encrypt.)
+		if depth == 0 && (strings.HasPrefix(ks, "len-") || ks == "ctor") {
+			bad("key material of a wrong length was accepted and a %s primitive was created from it, but it fails on well-formed input: %v", name, err)
+		}
+	}
 
 	guard("aead.New/use", func() {
 		a, err := aead.New(h)
@@ -239,6 +256,10 @@ func (w *world) use(h *keyset.Handle, g *gen, depth int) (usable []string) {
 			bad("verifier accepts an empty signature")
 			return
 		}
+		// well-formed inputs: what the private twins sign, random strings of signature length
+		if depth == 0 && g.ks != nil && !w.useVerifier(v, h, g, bad) {
+			return
+		}
 		ok("verifier")
 	})
 	guard("hybrid.NewHybridDecrypt/use", func() {
@@ -279,8 +300,12 @@ func (w *world) use(h *keyset.Handle, g *gen, depth int) (usable []string) {
 			return
 		}
 		created("hybrid-encrypt")
-		if _, err := e.Encrypt(msg, ad); err != nil {
+		ct, err := e.Encrypt(msg, ad)
+		if err != nil {
 			opfail("hybrid-encrypt", err)
+			return
+		}
+		if depth == 0 && g.ks != nil && !w.useEncrypter(ct, g, bad) {
 			return
 		}
 		ok("hybrid-encrypt")
@@ -408,6 +433,9 @@ func (w *world) use(h *keyset.Handle, g *gen, depth int) (usable []string) {
 		created("jwt-verifier")
 		if _, err := v.VerifyAndDecode("e30.e30.AAAA", val); err == nil {
 			bad("JWT verifier accepts garbage")
+			return
+		}
+		if depth == 0 && g.ks != nil && !w.useJWTVerifier(v, g, raw, val, bad) {
 			return
 		}
 		ok("jwt-verifier")
